@@ -75,10 +75,17 @@ static DString * run(token * root) {
 	}
 	return d;
 }
+/* text-run LENGTHS are concrete per unit (-DTL0..-DTL3): with symbolic lengths the token chain shape and every offset
+ * become symbolic and CBMC does not finish (measured: > 14 GB / 600 s); the run BYTES stay symbolic */
+#ifdef TL0
+#define TL_DECL size_t tl[4] = { TL0, TL1, TL2, TL3 };
+#else
+#define TL_DECL IN_ARR(size_t, tl, 4);
+#endif
 #define POST_edit (d->currentStringLength == g_en && (g_k >= g_en || d->str[g_k] == g_exp[g_k]) && d->str[d->currentStringLength] == 0)
 #define SETUP \
 	g_n = 0; g_en = 0; { IN(bool, acc); g_accept = acc; } { IN(size_t, k); g_k = k; } \
-	IN_ARR(char, tx, 4 * TB); IN_ARR(size_t, tl, 4); \
+	IN_ARR(char, tx, 4 * TB); TL_DECL \
 	for (size_t i = 0; i < 4 * TB; i++) { ASSUME(tx[i] != 0); } for (size_t i = 0; i < 4; i++) { ASSUME(tl[i] <= TB); } \
 	token * root = mk(0, 0, 0); token * t;
 
